@@ -244,6 +244,7 @@ Definition run_case (e : sexp) : str :=
       else if str_eqb mode (s2l "c01") then run_c01 id d impl
       else if str_eqb mode (s2l "c04") then run_c04 id d impl
       else if str_eqb mode (s2l "c06") then run_simple check_c06 id d impl
+      else if str_eqb mode (s2l "c05") then run_simple check_c05 id d impl
       else if str_eqb mode (s2l "c07") then run_simple check_c07 id d impl
       else if str_eqb mode (s2l "c09") then run_simple check_c09 id d impl
       else if str_eqb mode (s2l "c12") then run_c12 id d impl
